@@ -189,14 +189,16 @@ func (s *stream) closeRead() {
 // g4Conn is a net.Conn made of an inbound and an outbound stream. Every Write
 // call is recorded (the muxer writes exactly one segment per call).
 type g4Conn struct {
-	in, out *stream
-	wmu     sync.Mutex
-	writes  [][]byte
-	wcond   *sync.Cond
-	record  bool
-	perturb *Rand // scheduler perturbation inside Write (under the muxer's send mutex)
-	holdCh  chan struct{} // when non-nil, every Write blocks until it is closed (a connection slow to accept writes)
-	once    sync.Once
+	in, out      *stream
+	wmu          sync.Mutex
+	writes       [][]byte
+	wcond        *sync.Cond
+	record       bool
+	perturb      *Rand         // scheduler perturbation inside Write (under the muxer's send mutex)
+	payloadBytes int           // sum of len(write)-8 over all writes
+	closed       bool          // Close was called
+	holdCh       chan struct{} // when non-nil, every Write blocks until it is closed (a connection slow to accept writes)
+	once         sync.Once
 }
 
 func newG4Conn(in, out *stream, record bool) *g4Conn {
@@ -226,6 +228,9 @@ func (c *g4Conn) Write(p []byte) (int, error) {
 	} else {
 		c.writes = append(c.writes, nil)
 	}
+	if len(p) >= 8 {
+		c.payloadBytes += len(p) - 8
+	}
 	c.wcond.Broadcast()
 	c.wmu.Unlock()
 	return n, err
@@ -235,6 +240,16 @@ func (c *g4Conn) Write(p []byte) (int, error) {
 func (c *g4Conn) waitWrites(n int) {
 	c.wmu.Lock()
 	for len(c.writes) < n {
+		c.wcond.Wait()
+	}
+	c.wmu.Unlock()
+}
+
+// waitPayloadBytes blocks until the segments written so far carry at least n payload bytes
+// (each Write is one segment with an 8-byte header) or the connection was closed.
+func (c *g4Conn) waitPayloadBytes(n int) {
+	c.wmu.Lock()
+	for c.payloadBytes < n && !c.closed {
 		c.wcond.Wait()
 	}
 	c.wmu.Unlock()
@@ -250,6 +265,10 @@ func (c *g4Conn) Close() error {
 	c.once.Do(func() {
 		c.in.closeRead()
 		c.out.closeWrite()
+		c.wmu.Lock()
+		c.closed = true
+		c.wcond.Broadcast()
+		c.wmu.Unlock()
 	})
 	return nil
 }
